@@ -11,11 +11,20 @@ def _install_yields(comm, kinds):
     import builtins
     root = os.path.realpath(SCRATCH)
 
+    pkg = os.path.join(root, "esr") + os.sep
+    data_ok = (os.path.join(root, "esr", "function_library"), os.path.join(root, "esr", "fitting", "output"))
+
     def inside(p):
+        # scheduling points are file-system calls on run data, not on the package source (imports)
         try:
-            return os.path.realpath(os.fspath(p)).startswith(root)
+            q = os.path.realpath(os.fspath(p))
         except Exception:
             return False
+        if not q.startswith(root + os.sep):
+            return False
+        if q.startswith(pkg) and not q.startswith(data_ok):
+            return False
+        return True
 
     def rel(p):
         try:
@@ -24,29 +33,23 @@ def _install_yields(comm, kinds):
             return str(p)
 
     if "dir" in kinds:
-        _isdir, _exists, _mkdir, _makedirs = os.path.isdir, os.path.exists, os.mkdir, os.makedirs
+        _isdir, _mkdir, _makedirs = os.path.isdir, os.mkdir, os.makedirs
 
-        def isdir(p):
-            if inside(p):
-                comm.yield_point("isdir", rel(p))
-            return _isdir(p)
+        depth = [0]          # nested calls (os.makedirs calls os.mkdir / os.path.isdir) are one step
 
-        def exists(p):
-            if inside(p):
-                comm.yield_point("exists", rel(p))
-            return _exists(p)
+        def wrap(kind, fn):
+            def w(p, *a, **k):
+                if depth[0] == 0 and inside(p):
+                    comm.yield_point(kind, rel(p))
+                depth[0] += 1
+                try:
+                    return fn(p, *a, **k)
+                finally:
+                    depth[0] -= 1
+            return w
 
-        def mkdir(p, *a, **k):
-            if inside(p):
-                comm.yield_point("mkdir", rel(p))
-            return _mkdir(p, *a, **k)
-
-        def makedirs(p, *a, **k):
-            if inside(p):
-                comm.yield_point("makedirs", rel(p))
-            return _makedirs(p, *a, **k)
-
-        os.path.isdir, os.path.exists, os.mkdir, os.makedirs = isdir, exists, mkdir, makedirs
+        isdir, mkdir, makedirs = wrap("isdir", _isdir), wrap("mkdir", _mkdir), wrap("makedirs", _makedirs)
+        os.path.isdir, os.mkdir, os.makedirs = isdir, mkdir, makedirs
     if "open" in kinds or "system" in kinds:
         def hook(ev, args):
             if ev == "open" and "open" in kinds:
